@@ -269,6 +269,17 @@ def cases(tier, seed):
                 continue
             seen.add(key)
             lines.append("L\t%s\t%s\t%s\t%s\t%s" % (a, oa, b, ob, cg))
+        # a path over one of the links, in the direction of the link or backwards, with '*' or the overlap of the link, arriving before or
+        # after the lines it mentions (the link it asks for is created as a placeholder and must be replaced by the stored one, not kept)
+        lk = [l.split("\t") for l in lines if l[0] == "L"]
+        if lk and rng.random() < 0.35:
+            f = rng.choice(lk)
+            inv = {"+": "-", "-": "+"}
+            step = (f[1] + f[2], f[3] + f[4]) if rng.random() < 0.5 else (f[3] + inv[f[4]], f[1] + inv[f[2]])
+            pl = "P\tpp\t%s,%s\t%s" % (step[0], step[1], rng.choice(["*", f[5]]))
+            lines.insert(rng.randrange(0, len(lines) + 1), pl)
+        if rng.random() < 0.25:
+            rng.shuffle(lines)
         out.append((lines,))
     return out
 
@@ -277,7 +288,7 @@ if __name__ == "__main__":
     tier, seed = harness.args()
     cs = cases(tier, seed)
     res = harness.run(cs, check,
-                      rule="seeded GFA1 graphs: 2-5 segments (with 6-base sequences or '*'), 1-5 links with random orientations (self-links, hairpins, branching, cycles), overlaps '*' or match-only; oracle = reference "
+                      rule="seeded GFA1 graphs: 2-5 segments (with 6-base sequences or '*'), 1-5 links with random orientations (self-links, hairpins, branching, cycles), overlaps '*' or match-only, in a third of the graphs a path over one link (either direction, '*' or the link's overlap) inserted at a random position, a quarter in shuffled line order; oracle = reference "
                            "implementation on the text: end degrees, maximal chains (compared up to reversal / rotation of a cycle), spelled sequence with overlap trimming, merged name, outward links re-attached to "
                            "the merged segment's ends (compared up to reversal of each merged segment), components, WF, idempotence",
                       bound="<=5 segments, <=5 links", exhaustive=False)
